@@ -924,6 +924,34 @@ def install(m):
         R[pk + ".Marshal"] = (False, json_marshal)
         R[pk + ".Unmarshal"] = (False, json_unmarshal)
 
+    # ------------------------------------------------------------------ math (concrete floats only)
+    import math as _math
+
+    def mathfn(name, f):
+        def g(m, alt, fr, ins, args, work):
+            def app(*a):
+                for x in a:
+                    if not isinstance(x, (float, int)) or isinstance(x, bool):
+                        raise Unsupported("math.%s on symbolic %r" % (name, x))
+                return f(*a)
+            if len(args) == 1:
+                return lift1(args[0], app)
+            return lift2(args[0], args[1], app)
+        R["math." + name] = (False, g)
+
+    def go_round(x):
+        if _math.isnan(x) or _math.isinf(x):
+            return x
+        return float(_math.floor(abs(x) + 0.5)) * (1.0 if x >= 0 else -1.0)
+    mathfn("Round", go_round)
+    mathfn("Abs", lambda x: abs(float(x)))
+    mathfn("Floor", lambda x: float(_math.floor(x)) if _math.isfinite(x) else x)
+    mathfn("Ceil", lambda x: float(_math.ceil(x)) if _math.isfinite(x) else x)
+    mathfn("IsNaN", lambda x: _math.isnan(x))
+    mathfn("IsInf", lambda x, sign: _math.isinf(x) and (sign == 0 or (sign > 0) == (x > 0)))
+    mathfn("Max", lambda a, b: max(float(a), float(b)))
+    mathfn("Min", lambda a, b: min(float(a), float(b)))
+
     # ------------------------------------------------------------------ math/bits
     @reg("math/bits.OnesCount64")
     def onescount64(m, alt, fr, ins, args, work):
